@@ -57,6 +57,9 @@ const (
 	OFFloor  // roundToIntegral RTN
 	OFTrunc  // roundToIntegral RTZ
 	OFRound32 // round to float32 precision and back
+	OFIsInf
+	OFIsZero
+	OFIsNeg // sign bit set (fp.isNegative; false for NaN)
 )
 
 var opName = map[Op]string{ONot: "not", OAnd: "and", OOr: "or", OEq: "=", OIte: "ite", OAdd: "bvadd", OSub: "bvsub", OMul: "bvmul",
@@ -73,6 +76,9 @@ type Term struct {
 }
 
 func mask(w uint8) uint64 {
+	if w == 0 {
+		return 1 // Bool
+	}
 	if w >= 64 {
 		return ^uint64(0)
 	}
@@ -356,6 +362,34 @@ func Bin(op Op, a, b *Term) *Term {
 		if b.IsConst() && b.V == 0 {
 			return a
 		}
+		if a == b {
+			return Const(w, 0)
+		}
+		// -(-x) = x
+		if a.IsConst() && a.V == 0 && b.Op == OSub && b.A.IsConst() && b.A.V == 0 {
+			return b.B
+		}
+	case OMul:
+		// (-x)*y = x*(-y) = -(x*y) (mod 2^w): pull the negation out so that both
+		// spellings become the same term
+		if a.Op == OSub && a.A.IsConst() && a.A.V == 0 {
+			return Bin(OSub, Const(w, 0), Bin(OMul, a.B, b))
+		}
+		if b.Op == OSub && b.A.IsConst() && b.A.V == 0 {
+			return Bin(OSub, Const(w, 0), Bin(OMul, a, b.B))
+		}
+		if a.IsConst() && a.V == 1 {
+			return b
+		}
+		if b.IsConst() && b.V == 1 {
+			return a
+		}
+		if a.IsConst() && a.V == mask(w) { // -1 * y
+			return Bin(OSub, Const(w, 0), b)
+		}
+		if b.IsConst() && b.V == mask(w) {
+			return Bin(OSub, Const(w, 0), a)
+		}
 	}
 	return mk(Term{Op: op, W: rw, A: a, B: b})
 }
@@ -458,7 +492,7 @@ func (c *emitCtx) ref(t *Term) string {
 		e = fmt.Sprintf("((_ extract %d 0) %s)", t.W-1, c.ref(t.A))
 	case OFAdd, OFSub, OFMul, OFDiv, OFLt, OFLe, OFEq:
 		e = "(" + fopName[t.Op] + " " + c.ref(t.A) + " " + c.ref(t.B) + ")"
-	case OFNeg, OFIsNaN, OFCeil, OFFloor, OFTrunc:
+	case OFNeg, OFIsNaN, OFCeil, OFFloor, OFTrunc, OFIsInf, OFIsZero, OFIsNeg:
 		e = "(" + fopName[t.Op] + " " + c.ref(t.A) + ")"
 	case OBV2F:
 		e = "((_ to_fp 11 53) " + c.ref(t.A) + ")"
@@ -558,6 +592,13 @@ func (ev *evaluator) eval1(t *Term) uint64 {
 	case OFIsNaN:
 		x := f(t.A)
 		return b2u(x != x)
+	case OFIsInf:
+		return b2u(math.IsInf(f(t.A), 0))
+	case OFIsZero:
+		return b2u(f(t.A) == 0)
+	case OFIsNeg:
+		x := f(t.A)
+		return b2u(x == x && math.Signbit(x))
 	case OFCeil:
 		return fb(math.Ceil(f(t.A)))
 	case OFFloor:
@@ -613,6 +654,23 @@ func FBin(op Op, a, b *Term) *Term {
 			return Bool(x == y)
 		}
 	}
+	if op == OFMul {
+		// -1*x = -x and 1*x = x exactly (IEEE 754); saves the solver a multiplier
+		for _, p := range [][2]*Term{{a, b}, {b, a}} {
+			if p[0].IsConst() {
+				if p[0].Float() == -1 {
+					return FUn(OFNeg, p[1])
+				}
+				if p[0].Float() == 1 {
+					return p[1]
+				}
+			}
+		}
+	}
+	if op == OFEq && a == b {
+		// x == x fails exactly for NaN
+		return Not(FUn(OFIsNaN, a))
+	}
 	switch op {
 	case OFLt, OFLe, OFEq:
 		return mk(Term{Op: op, W: 0, A: a, B: b})
@@ -621,6 +679,9 @@ func FBin(op Op, a, b *Term) *Term {
 }
 
 func FUn(op Op, a *Term) *Term {
+	if op == OFNeg && a.Op == OFNeg {
+		return a.A
+	}
 	if a.IsConst() {
 		x := a.Float()
 		switch op {
@@ -628,6 +689,12 @@ func FUn(op Op, a *Term) *Term {
 			return FConst(-x)
 		case OFIsNaN:
 			return Bool(x != x)
+		case OFIsInf:
+			return Bool(math.IsInf(x, 0))
+		case OFIsZero:
+			return Bool(x == 0)
+		case OFIsNeg:
+			return Bool(x == x && math.Signbit(x))
 		case OFCeil:
 			return FConst(math.Ceil(x))
 		case OFFloor:
@@ -638,7 +705,44 @@ func FUn(op Op, a *Term) *Term {
 			return FConst(float64(float32(x)))
 		}
 	}
-	if op == OFIsNaN {
+	switch op {
+	case OFIsNaN:
+		// push the NaN test through arithmetic (IEEE 754 rules) so that the
+		// solver does not have to bit-blast multipliers/dividers for it
+		inf := func(x *Term) *Term { return FUn(OFIsInf, x) }
+		zero := func(x *Term) *Term { return FUn(OFIsZero, x) }
+		nan := func(x *Term) *Term { return FUn(OFIsNaN, x) }
+		neg := func(x *Term) *Term { return FUn(OFIsNeg, x) }
+		switch a.Op {
+		case OFNeg, OFCeil, OFFloor, OFTrunc, OFRound32:
+			return nan(a.A)
+		case OS2F, OU2F:
+			return tFalse
+		case OIte:
+			return Ite(a.A, nan(a.B), nan(a.C))
+		case OFAdd:
+			return Or(Or(nan(a.A), nan(a.B)), And(And(inf(a.A), inf(a.B)), Not(Eq(neg(a.A), neg(a.B)))))
+		case OFSub:
+			return Or(Or(nan(a.A), nan(a.B)), And(And(inf(a.A), inf(a.B)), Eq(neg(a.A), neg(a.B))))
+		case OFMul:
+			return Or(Or(nan(a.A), nan(a.B)), Or(And(inf(a.A), zero(a.B)), And(zero(a.A), inf(a.B))))
+		case OFDiv:
+			return Or(Or(nan(a.A), nan(a.B)), Or(And(inf(a.A), inf(a.B)), And(zero(a.A), zero(a.B))))
+		}
+		return mk(Term{Op: op, W: 0, A: a})
+	case OFIsInf, OFIsZero, OFIsNeg:
+		switch a.Op {
+		case OFNeg:
+			if op == OFIsNeg {
+				// sign flips (for NaN fp.isNegative is false either way in SMT-LIB? no: keep exact) 
+				break
+			}
+			return FUn(op, a.A)
+		case OS2F, OU2F:
+			if op == OFIsInf {
+				return tFalse
+			}
+		}
 		return mk(Term{Op: op, W: 0, A: a})
 	}
 	return mk(Term{Op: op, W: 64, F: true, A: a})
@@ -689,4 +793,5 @@ func cvttsd2sq(f float64) int64 {
 
 var fopName = map[Op]string{OFAdd: "fp.add RNE", OFSub: "fp.sub RNE", OFMul: "fp.mul RNE", OFDiv: "fp.div RNE",
 	OFLt: "fp.lt", OFLe: "fp.leq", OFEq: "fp.eq", OFNeg: "fp.neg", OFIsNaN: "fp.isNaN",
+	OFIsInf: "fp.isInfinite", OFIsZero: "fp.isZero", OFIsNeg: "fp.isNegative",
 	OFCeil: "fp.roundToIntegral RTP", OFFloor: "fp.roundToIntegral RTN", OFTrunc: "fp.roundToIntegral RTZ"}
